@@ -559,6 +559,7 @@ func (m *Machine) sprintf(fr *frame, format Str, args []Value) Str {
 	}
 	var out Str
 	argi := 0
+	usedIndex := false
 	i := 0
 	for i < len(f) {
 		j := strings.IndexByte(f[i:], '%')
@@ -572,12 +573,22 @@ func (m *Machine) sprintf(fr *frame, format Str, args []Value) Str {
 			out = StrConcat(out, CStr("%!(NOVERB)"))
 			break
 		}
-		// flags/width/precision
+		// flags/width/precision, with an optional explicit argument index %[n]verb
 		start := i
 		for i < len(f) && strings.IndexByte("+-# 0123456789.*", f[i]) >= 0 {
 			i++
 		}
 		spec := f[start:i]
+		if i < len(f) && f[i] == '[' {
+			k := strings.IndexByte(f[i:], ']')
+			n, err := strconv.Atoi(f[i+1 : i+max(k, 1)])
+			if k < 0 || err != nil || n < 1 {
+				m.unsupported("fmt: malformed argument index in %q", f)
+			}
+			argi = n - 1
+			i += k + 1
+			usedIndex = true
+		}
 		if i >= len(f) {
 			break
 		}
@@ -595,7 +606,7 @@ func (m *Machine) sprintf(fr *frame, format Str, args []Value) Str {
 		argi++
 		out = StrConcat(out, m.fmtValue(fr, verb, arg, spec))
 	}
-	if argi < len(args) {
+	if argi < len(args) && !usedIndex {
 		out = StrConcat(out, CStr("%!(EXTRA )"))
 	}
 	return out
